@@ -41,7 +41,12 @@ def _pseudo(term):
     return (zlib.crc32(repr(term).encode()) % 4001 - 2000) / 128.0
 
 def _tt(o):
+    if o is None or isinstance(o, str):
+        raise TypeError('unsupported operand for a symbolic element: %r' % (o,))     # as number <op> None does
     return o.t if isinstance(o, Sym) else ('k', fingerprint(o))
+
+def _is_zero_number(o):
+    return isinstance(o, (int, float, np.integer, np.floating)) and not isinstance(o, (bool, np.bool_)) and o == 0
 
 class Sym(object):
     """a symbolic element: records which scalar operation was applied to which operands.
@@ -58,7 +63,9 @@ class Sym(object):
     def __rsub__(self, o): return self._rb('sub', o)
     def __mul__(self, o): return self._b('mul', o)
     def __rmul__(self, o): return self._rb('mul', o)
-    def __truediv__(self, o): return self._b('div', o)
+    def __truediv__(self, o):
+        if _is_zero_number(o): raise ZeroDivisionError('symbolic element / 0')
+        return self._b('div', o)
     def __rtruediv__(self, o): return self._rb('div', o)
     def __pow__(self, o): return self._b('pow', o)
     def __rpow__(self, o): return self._rb('pow', o)
@@ -228,6 +235,40 @@ def make_array(kind, shape, elems, label):
         return ua.UncertainArray(nd, label=label)
     return la.uarray(nd, label=label)
 
+# ----------------------------------------------------------------------------- NumPy views / re-laid-out copies
+def apply_view(a, how):
+    """the NumPy operation `how` applied to any ndarray (an UncertainArray, or an index array to get the index map)"""
+    k = how[0]
+    if k == 'T': return a.T
+    if k == 'transpose': return np.transpose(a, tuple(how[1]))
+    if k == 'swapaxes': return np.swapaxes(a, how[1], how[2])
+    if k == 'rev': return a[(slice(None),) * how[1] + (slice(None, None, -1),)]
+    if k == 'step': return a[(slice(None),) * how[1] + (slice(how[2], None, how[3]),)]
+    if k == 'fortran': return np.asanyarray(a, order='F') if a.ndim else a
+    if k == 'fcopy': return np.array(a, order='F', subok=True)
+    if k == 'bcast': return np.broadcast_to(a, tuple(how[1]), subok=True)
+    raise ValueError(how)
+
+def view_index_map(shape, how):
+    n = int(np.prod(shape)) if len(shape) else 1
+    v = apply_view(np.arange(n).reshape(tuple(shape)), how)
+    return [int(d) for d in v.shape], [int(j) for j in v.flat]
+
+def rand_view(rng, shape):
+    nd = len(shape); choices = [['fortran'], ['fcopy']]
+    if nd >= 2:
+        perm = list(range(nd)); rng.shuffle(perm)
+        a, b = rng.sample(range(nd), 2)
+        choices += [['T']] * 3 + [['transpose', perm]] * 2 + [['swapaxes', a, b]] * 2
+    if nd >= 1:
+        ax = rng.randrange(nd)
+        choices += [['rev', ax]] * 2 + [['step', ax, rng.choice([0, 1]), rng.choice([2, -1, -2])]]
+        if int(np.prod(shape)) <= 12: choices += [['bcast', [rng.choice([1, 2])] + list(shape)]]
+    return rng.choice(choices)
+
+def c_ordered(o):
+    return (not isinstance(o, np.ndarray)) or o.ndim < 2 or bool(o.flags['C_CONTIGUOUS'])
+
 # ----------------------------------------------------------------------------- running a program on the implementation
 UNSET = object()
 
@@ -254,7 +295,11 @@ class Impl(object):
     def __init__(self, ctx=16):
         new_context(ctx)
         self.heap = []; self.reg = Registry(); self.rows = {}; self.expected = []; self.tainted = set()
-        self.notes = {'broadcast': 0, 'stale_read': 0, 'read_after_broadcast': 0, 'exn': 0, 'steps': 0, 'cells': 0}
+        self.notes = {'broadcast': 0, 'stale_read': 0, 'read_after_broadcast': 0, 'exn': 0, 'steps': 0, 'cells': 0,
+                      'noncontiguous_operand': 0, 'raising_broadcast': 0, 'read_after_raise': 0}
+        self.shape_at = {}                # step -> shape of the source of a view op
+        self.views = set()                # heap indices of NumPy views / re-laid-out copies
+        self.raised = set()               # heap indices of objects that dispatched a binary ufunc which raised
         self.dispatched_bcast = set()     # heap indices of objects that dispatched a broadcasting binary ufunc
 
     def row(self, code, args, r):
@@ -321,6 +366,11 @@ class Impl(object):
         k = op['op']
         if k in ('un', 'unb', 'zip', 'result', 'copy') and op['i'] in self.dispatched_bcast:
             self.notes['read_after_broadcast'] += 1
+        if k in ('un', 'unb', 'zip', 'result', 'copy', 'bin'):
+            used = [op['i']] if 'i' in op else [o[1] for o in (op['x'], op['y']) if o[0] == 'A']
+            if 'y' in op and k == 'zip' and op['y'][0] == 'A': used.append(op['y'][1])
+            if any(not c_ordered(self.heap[j]) for j in used): self.notes['noncontiguous_operand'] += 1
+            if any(j in self.raised for j in used): self.notes['read_after_raise'] += 1
         if k == 'new':
             elems = [make_elem(s) for s in op['elems']]
             lbl = op.get('label')
@@ -345,6 +395,11 @@ class Impl(object):
                 r = guarded(OPERATOR[code], x, y)
             else:
                 r = guarded(getattr(np, name), x, y)
+            if r[0] == 'exn':
+                ku = [o[1] for o in (op['x'], op['y']) if o[0] == 'A' and kind_of(self.heap[o[1]]) == 'KU']
+                if ku:
+                    self.raised.add(ku[0])
+                    if tuple(sa) != tuple(sb) and op['x'][0] == 'A' and op['y'][0] == 'A': self.notes['raising_broadcast'] += 1
             self.observe(r)
         elif k in ('un', 'unb'):
             code = op['f']; a = self.heap[op['i']]
@@ -401,7 +456,8 @@ class Impl(object):
             a = self.heap[op['i']]
             if bstate_of(a) != 'BNone': self.notes['stale_read'] += 1
             for c in cells_of(a): self.row(1, (c,), guarded(scalar_un, 1, c))
-            self.observe(guarded(lambda: a.copy()))
+            o = op.get('order')
+            self.observe(guarded(lambda: a.copy() if o is None else a.copy(order=o)))
         elif k == 'label':
             a = self.heap[op['i']]
             r = guarded(lambda: a.label)
@@ -410,6 +466,12 @@ class Impl(object):
             import pickle
             a = self.heap[op['i']]
             self.observe(guarded(lambda: pickle.loads(pickle.dumps(a))))
+        elif k == 'view':
+            a = self.heap[op['i']]
+            self.shape_at[len(self.expected)] = [int(d) for d in np.shape(a)]
+            n0 = len(self.heap)
+            self.observe(guarded(apply_view, a, op['how']))
+            if len(self.heap) > n0: self.views.add(n0)
         else:
             raise ValueError(k)
 
@@ -440,9 +502,14 @@ def coq_op(op, impl, step=None):
         elif isinstance(lab, str): l = '(LBase %s)' % cz(reg.id(lab))
         else: l = '(LList %s)' % czl([reg.id(str(x)) for x in np.asarray(lab).flat])
         return '(OResult %d %s)' % (op['i'], l)
-    if k == 'copy': return '(OCopy %d)' % op['i']
+    if k == 'copy': return '(OCopy Ord%s %d)' % (op.get('order') or 'C', op['i'])
     if k == 'label': return '(OLabel %d)' % op['i']
     if k == 'pickle': return '(OPickle %d)' % op['i']
+    if k == 'view':
+        # the index map comes from NumPy applied to an index array of the source's shape
+        src_shape = impl.shape_at[step]
+        s, m = view_index_map(src_shape, op['how'])
+        return '(OView %d %s %s)' % (op['i'], cnat_list(s), cnat_list(m))
     raise ValueError(k)
 
 def coq_out(x):
@@ -508,6 +575,11 @@ class Gen(object):
     def __init__(self, rng, mode):
         self.rng = rng; self.mode = mode; self.leaf = 0; self.shapes = []; self.kinds = []
 
+    def poison(self):
+        """an element on which some scalar operations raise: None (TypeError), 0 / 0.0 (ZeroDivisionError, domain errors)"""
+        # ... and NaN / inf, on which comparisons, maximum/minimum and isnan/isinf/isfinite take their special branches
+        return self.rng.choice([['N'], ['i', 0], ['f', 0.0], ['f', -1.5], ['f', 'nan'], ['f', 'nan'], ['f', 'inf'], ['f', '-inf']])
+
     def elem(self):
         rng = self.rng; self.leaf += 1
         if self.mode == 'sym':
@@ -528,7 +600,7 @@ class Gen(object):
         r = rng.random()
         if r < 0.4: return ['ur', round(rng.uniform(0.2, 0.9), 3) + 0.001 * self.leaf, round(rng.uniform(0.01, 0.2), 3), None]
         if r < 0.55: return ['uc', round(rng.uniform(0.2, 0.9), 3) + 0.001 * self.leaf, 0.3, 0.05, 0.07, None]
-        if r < 0.85: return ['f', round(rng.uniform(0.2, 2), 2)]
+        if r < 0.85: return ['f', round(rng.uniform(0.2, 2), 2)] if rng.random() < 0.85 else ['f', rng.choice(['nan', 'inf', 0.0])]
         if r < 0.95: return ['i', rng.randint(1, 3)]
         return ['c', 0.5, -0.25]
 
@@ -542,7 +614,9 @@ class Gen(object):
             kind = 'KU' if j == 0 or rng.random() < 0.8 else 'KN'
             if kind == 'KU' and len(s) == 0 and rng.random() < 0.5: s = [1]
             n = int(np.prod(s)) if s else 1
-            ops.append({'op': 'new', 'kind': kind, 'shape': s, 'elems': [self.elem() for _ in range(n)],
+            elems = [self.elem() for _ in range(n)]
+            if n and rng.random() < 0.3: elems[rng.randrange(n)] = self.poison()
+            ops.append({'op': 'new', 'kind': kind, 'shape': s, 'elems': elems,
                         'label': rng.choice([None, 'lab%d' % j])})
             self.shapes.append(s); self.kinds.append(kind)
         return {'mode': self.mode, 'scalars': scalars, 'ops': ops}
@@ -557,7 +631,12 @@ def extend_program(rng, prog, impl_factory, nops):
         kus = [i for i, o in enumerate(heap) if kind_of(o) == 'KU']
         if not kus: break
         def pick_ku():
-            # prefer the first objects (the shared operands) and objects with a remembered broadcast shape
+            # prefer objects whose dispatched binary ufunc raised, NumPy views with a non-C memory layout, objects that
+            # dispatched a broadcasting ufunc (or hold a remembered broadcast shape), then the first (shared) operands
+            raised = [i for i in kus if i in impl.raised]
+            if raised and rng.random() < 0.4: return rng.choice(raised)
+            views = [i for i in kus if i in impl.views]
+            if views and rng.random() < 0.45: return rng.choice(views)
             stale = [i for i in kus if bstate_of(heap[i]) != 'BNone' or i in impl.dispatched_bcast]
             if stale and rng.random() < 0.5: return rng.choice(stale)
             return rng.choice(kus[:4]) if rng.random() < 0.7 else rng.choice(kus)
@@ -569,8 +648,15 @@ def extend_program(rng, prog, impl_factory, nops):
                 if j not in impl.tainted: return ['A', j]
             return ['A', pick_ku()]
         r = rng.random()
+        if r < 0.10:
+            src = pick_any()
+            if src[0] != 'A': src = ['A', pick_ku()]
+            op = {'op': 'view', 'i': src[1], 'how': rand_view(rng, list(np.shape(heap[src[1]])))}
+            prog['ops'].append(op); do(impl, op)
+            continue
+        r = rng.random()
         if r < 0.40:
-            code = rng.choice(list(BGEN) * 2 + list(BCMP))
+            code = rng.choice(list(BGEN) * 2 + [53, 54] + list(BCMP))
             x, y = pick_any(), pick_any()
             if not any(o[0] == 'A' and kind_of(heap[o[1]]) == 'KU' for o in (x, y)):
                 x = ['A', pick_ku()]
@@ -599,7 +685,7 @@ def extend_program(rng, prog, impl_factory, nops):
             if bstate_of(heap[i]) == 'BUnset' and code == F_ATAN2: code = F_SENS
             y = ['A', pick_ku()] if (code == F_ATAN2 or rng.random() < 0.8) else ['S', rng.randrange(len(prog['scalars']))]
             op = {'op': 'zip', 'f': code, 'i': i, 'y': y}
-        elif r < 0.92:
+        elif r < 0.91:
             i = pick_ku(); a = heap[i]
             ok = mode == 'sym' or not any(getattr(c, 'is_elementary', False) or
                                           (hasattr(c, 'real') and getattr(getattr(c, 'real', None), 'is_elementary', False))
@@ -612,8 +698,9 @@ def extend_program(rng, prog, impl_factory, nops):
                 if rng.random() < 0.5 and np.ndim(a) >= 1 and len(lab) == n and n:
                     lab = np.array(lab).reshape(np.shape(a)).tolist()
             op = {'op': 'result', 'i': i, 'labels': lab}
-        elif r < 0.96:
-            op = {'op': 'copy', 'i': pick_ku()}
+        elif r < 0.965:
+            # copy() with every memory order, on C-ordered operands and on views (the order must not touch the contents)
+            op = {'op': 'copy', 'i': pick_ku(), 'order': rng.choice([None, 'C', 'F', 'F', 'A', 'K'])}
         elif r < 0.985:
             op = {'op': 'label', 'i': pick_ku()}
         else:
